@@ -73,11 +73,15 @@ pub struct KeyInfo {
     pub st: KeyState,
     /// tokens issued for this key earlier (most recent first, distinct, != current)
     pub stale: Vec<u64>,
+    /// every token the server's own generator has issued for this key, over all lifetimes (tokens
+    /// of lifetimes begun with a client-supplied CAS are not recorded): a client may still hold any
+    /// of them, so none may ever name another version of the key
+    pub issued: std::collections::BTreeSet<u64>,
 }
 
 impl Default for KeyInfo {
     fn default() -> Self {
-        KeyInfo { st: KeyState::Absent(Gone::Never), stale: vec![] }
+        KeyInfo { st: KeyState::Absent(Gone::Never), stale: vec![], issued: Default::default() }
     }
 }
 
@@ -126,7 +130,7 @@ pub fn owners(clause: &str) -> &'static [&'static str] {
         "phantom-item" => &["C01"],
         "store-must-succeed" => &["C01", "C02"],
         "cas-should-succeed" | "cas-should-fail" | "cas-fail-status" | "cas-fail-modified" | "token-zero"
-        | "token-reused" | "token-ack" => &["C02"],
+        | "token-reused" | "token-reissued" | "token-ack" => &["C02"],
         "must-miss-ttl" | "resurrected" | "expired-visible" | "expiry-prolonged" | "expiry-shortened" | "rejected-changed-expiry" | "stored-expiry" => &["C05"],
         // the flags a retrieval returns are the stored ones: a command that carries no flags and changes
         // them breaks read-your-writes (C01) as well as its own family's rule
